@@ -2,11 +2,15 @@
 
 
 def z(n: int) -> str:
+    if abs(n) >= 10 ** 30:      # Coq parses long decimal literals slowly (quadratic); hex is linear
+        return f"(-0x{-n:x})%Z" if n < 0 else f"(0x{n:x})%Z"
     return f"({n})%Z"
 
 
 def n(k: int) -> str:
     assert k >= 0
+    if k >= 10 ** 30:
+        return f"0x{k:x}%N"
     return f"{k}%N"
 
 
